@@ -26,22 +26,25 @@ PLAN = {
     "C01": dict(
         title="Backpropagated gradients are the true derivatives of the objective",
         level="proof",
-        verus=["C01_conv_backward.rs", "C01_deconv_backward.rs", "C01_maxpool_backward.rs", "C07_activations.rs", "C16_skip_backward.rs"],
+        verus=["C01_conv_backward.rs", "C01_deconv_backward.rs", "C01_maxpool_backward.rs", "C07_activations.rs", "C16_skip_backward.rs", "C02_dense.rs"],
         kani=True,
         undecided_clauses=[
-            "dense backward and soft-max x cross-entropy are bounded Kani harnesses (2->2 / 1->2, small-integer data), not proofs",
+            "Dense::backward is proved to be the delta rule over abstract tensor operations (unit dense.backward: delta = f'(out) (.) g * scale, ones for soft-max; "
+            "W^T delta; delta (x) input; bias gradient = delta), the operations themselves are C15's; numerically it is a bounded Kani harness (2->2 / 1->2, small-integer data)",
             "the reverse step of Network::backward is proved (unit network.backward.walk: which gradient and which input each layer's backward "
             "receives, what is handed on); Feedback::backward's inner walk and the loop-connection scaling (`loops`, `scale`) are read, not verified"],
     ),
     "C02": dict(
         title="Each layer's forward pass computes its defining operator",
         level="proof",
-        verus=["C02_convolve.rs", "C02_deconv_forward.rs", "C02_maxpool_forward.rs", "C02_pad3d.rs", "C17_network_forward.rs"],
+        verus=["C02_convolve.rs", "C02_deconv_forward.rs", "C02_maxpool_forward.rs", "C02_pad3d.rs", "C17_network_forward.rs", "C02_dense.rs", "C02_forward_glue.rs"],
         kani=True,
         undecided_clauses=["max-pool: inputs are required to be above f32::MIN (the scan's start value); an element equal to f32::MIN in a 1x1 window would "
                            "record index (0,0)",
                            "dense W x + b is a bounded Kani harness (2->2); a network's prediction = composition of its layers is proved at the level of abstract layer functions (units network._forward and network.forward: fold over the layers, with skip / loop handling)",
-                           "the glue inside Convolution/Deconvolution/Maxpool::forward around the verified kernels (activation call, flatten flag) is by program order"],
+                           "the glue of the four forward functions is proved at the level of abstract operations (units dense.forward, conv/deconv/maxpool.forward.glue: W x + b then "
+                           "activation; padding extents and kernel order; dropout only when training; flatten only when flagged); that the kernels' preconditions (rectangular "
+                           "operands, sizes in range) hold where they are called is read (Convolution::create validates them), and the flat-input view is a bounded Kani region"],
     ),
     "C04": dict(
         title="Training is ordered mini-batch gradient-sum descent",
@@ -100,10 +103,10 @@ PLAN = {
     "C09": dict(
         title="Dropout never leaks into prediction or validation",
         level="proof",
-        verus=["C09_flags.rs"],
+        verus=["C09_flags.rs", "C02_dense.rs", "C02_forward_glue.rs"],
         kani=True,
-        undecided_clauses=["the five flag loops are proved for every layer sequence (units *.loop); the dropout GUARD of each layer kind (`if self.training` around "
-                           "Tensor::dropout in the three forward functions) is a bounded Kani region per kind",
+        undecided_clauses=["the five flag loops are proved for every layer sequence (units *.loop); the dropout GUARD of each layer kind is proved too (units dense.forward, "
+                           "conv.forward.glue, deconv.forward.glue: dropout is applied iff the layer is training and a rate is set; max-pool has none) and additionally run by Kani per kind",
                            "composition: validate = prologue; per-sample predictions; epilogue and learn = entry; epochs; exit is proved at the level of abstract flag-setting "
                            "contracts (units network.validate, learn.whole), which restate - by reading - what the loop units prove",
                            "that predict() / forward() perform no write to the flags: they take &self (type system), not a proof obligation"],
